@@ -71,6 +71,33 @@ func runAxisClause(c *core.Check, rule string, pkgs []*packages.Package, only fu
 	}
 }
 
+func runMirrorClause(c *core.Check, rule string, pkgs []*packages.Package, floor int) {
+	c.Rule(rule, "if/else arms that are copies of each other up to identifiers are consistent one-to-one renamings")
+	issues, n := mirrorArmIssues(c.P, pkgs)
+	for _, m := range issues {
+		c.Fail(rule, m.Key, m.Pos, "the else arm is the then arm with identifiers renamed, but the renaming is not one-to-one ("+m.Text+"): one of the arms was only half renamed")
+	}
+	c.Decide(n >= floor, rule, "mirror:inventory", token.NoPos, fmt.Sprintf("%d if/else statements whose arms differ only in identifiers, all consistent one-to-one renamings", n), fmt.Sprintf("only %d mirrored if/else statements found, expected at least %d", n, floor))
+}
+
+func runCeilClause(c *core.Check, rule string, pkgs []*packages.Package) {
+	c.Rule(rule, "a ceiling division (a + d - 1) / e divides by the d it added")
+	issues, n := ceilDivIssues(c.P, pkgs)
+	for _, m := range issues {
+		c.Fail(rule, m.Key, m.Pos, m.Text+": the count derived from it is too small or too large, so cells overflow the grid or leave it short")
+	}
+	c.Pass(rule, "ceildiv:inventory", token.NoPos, fmt.Sprintf("%d integer divisions of the form (a + d - 1) / e, all with e = d", n))
+}
+
+func runDirectionClause(c *core.Check, rule string, pkgs []*packages.Package) {
+	c.Rule(rule, "in a function with a direction flag, a displacement along one axis sits under a test of the flag")
+	issues, nflags, nsites := directionGuardIssues(c.P, pkgs)
+	for _, is := range issues {
+		c.Fail(rule, is.Key, is.Pos, "a displacement along one axis that is not under a test of the function's direction flag is applied for both layout directions: "+is.Text)
+	}
+	c.Decide(nflags >= 3 && nsites >= 10, rule, "direction:sites", token.NoPos, fmt.Sprintf("%d direction flags, %d axis-specific displacements, all under a test of the flag", nflags, nsites), fmt.Sprintf("only %d flags / %d sites found", nflags, nsites))
+}
+
 func runBoundsClause(c *core.Check, rule string, pkgs []*packages.Package, floor int) {
 	issues, nacc, nupd := runningBoundIssues(c.P, pkgs)
 	for _, m := range issues {
@@ -87,21 +114,24 @@ func init() {
 	register(&Prop{
 		ID: "C19", Title: "Containers enclose their children and siblings do not overlap",
 		Patterns:    []string{"./d2layouts/...", "./d2graph", "./lib/geo"},
-		Explanation: "Decides two necessary conditions only: (1) axis consistency of the container-fitting, spacing and positioning arithmetic of the layout packages (d2layouts and its engines, d2graph's layout helpers, lib/geo): no sum, difference or comparison mixes a horizontal with a vertical quantity and no value of one axis is stored into a place of the other, apart from ten reviewed cases; (2) every running bound in those packages (min/max accumulators used to fit containers and compute extents) is accumulated monotonically in one direction and never overwritten inside its loop.",
+		Explanation: "Decides two necessary conditions only: (1) axis consistency of the container-fitting, spacing and positioning arithmetic of the layout packages (d2layouts and its engines, d2graph's layout helpers, lib/geo): no sum, difference or comparison mixes a horizontal with a vertical quantity and no value of one axis is stored into a place of the other, apart from ten reviewed cases; (2) every running bound in those packages (min/max accumulators used to fit containers and compute extents) is accumulated monotonically in one direction and never overwritten inside its loop; (3) mirrored arms — an if/else on a boolean switch whose two short arms are copies of each other up to identifiers (rows/columns, X/Y, Width/Height) is a consistent one-to-one renaming, and a ceiling division (a + d - 1) / e divides by the d it added; (4) in a function with a direction flag (a bool parameter that selects an X arm or a Y arm), every displacement along a single axis is under a test of that flag.",
 		NotCovered:  geomNotCovered,
-		Technique:   "static analysis: name-typed axis inference over arithmetic (E15), monotone-accumulator check",
+		Technique:   "static analysis: name-typed axis inference over arithmetic (E15), monotone-accumulator check, sibling-arm comparison",
 		Run: func(c *core.Check) {
 			c.Rule("C19.axis", "layout arithmetic stays within one axis")
 			c.Rule("C19.bounds", "running bounds are accumulated monotonically")
 			pk := pkgsMatching(c, relIn("d2layouts/...", "d2graph", "lib/geo"))
 			runAxisClause(c, "C19.axis", pk, nil, 700)
+			runMirrorClause(c, "C19.mirror", pk, 20)
+			runCeilClause(c, "C19.ceil-division", pk)
+			runDirectionClause(c, "C19.direction", pk)
 			runBoundsClause(c, "C19.bounds", pk, 15)
 		},
 	})
 	register(&Prop{
 		ID: "C20", Title: "Connections start at their source and end at their destination",
 		Patterns:    []string{"./d2layouts/...", "./d2graph", "./lib/geo", "./lib/shape", "./lib/label"},
-		Explanation: "Decides: (1) provenance of stored routes — in both layout engines the route stored for an edge at the end of the per-edge loop is reached only after Edge.TraceToShape was applied to those points, and wherever a straight centre-to-centre route is created (nested and grid edge routing) it is traced before the function moves on; (2) axis consistency of the tracing arithmetic (d2graph/layout.go, lib/geo, lib/shape, lib/label); (3) the divert flags of TraceToShape do not leak from the source end to the destination end (rule of C27).",
+		Explanation: "Decides: (1) provenance of stored routes — in both layout engines the route stored for an edge at the end of the per-edge loop is reached only after Edge.TraceToShape was applied to those points, and wherever a straight centre-to-centre route is created (nested and grid edge routing) it is traced before the function moves on; (2) axis consistency of the tracing arithmetic (d2graph/layout.go, lib/geo, lib/shape, lib/label); (3) the divert flags of TraceToShape do not leak from the source end to the destination end (rule of C27); (4) endpoint index agreement — code guarded by `e.Src == o` touches the first route point (or its neighbours), code guarded by `e.Dst == o` the last one, in both engines and in d2graph.",
 		NotCovered:  geomNotCovered,
 		Technique:   "static analysis: must-pass-through on go/cfg, name-typed axis inference",
 		Run:         runC20,
@@ -123,7 +153,7 @@ func init() {
 	register(&Prop{
 		ID: "C22", Title: "Grid cells follow declaration order, align, keep gaps and never overlap",
 		Patterns:    []string{"./d2layouts/d2grid", "./d2graph"},
-		Explanation: "Decides: (1) axis consistency of the grid layout arithmetic (cursor advances, gaps, row/column extents); (2) monotone running bounds; (3) the cells are taken from the container's ChildrenArray (declaration order) and d2grid never sorts or re-orders them (no sort call on the cell list, no iteration over a map of cells).",
+		Explanation: "Decides: (1) axis consistency of the grid layout arithmetic (cursor advances, gaps, row/column extents); (2) monotone running bounds; (3) the cells are taken from the container's ChildrenArray (declaration order) and d2grid never sorts or re-orders them (no sort call on the cell list, no iteration over a map of cells); (4) mirrored arms — the short row/column arms of an if/else on a boolean switch (gd.rowDirected …) are consistent one-to-one renamings of each other, and a ceiling division (a + d - 1) / e divides by the d it added (the grid's capacity derivation).",
 		NotCovered:  geomNotCovered + "; the search for the best dynamic layout",
 		Technique:   "static analysis: name-typed axis inference, monotone-accumulator check, who-may-sort",
 		Run: func(c *core.Check) {
@@ -134,6 +164,8 @@ func init() {
 			runAxisClause(c, "C22.axis", pk, nil, 50)
 			runBoundsClause(c, "C22.bounds", pk, 2)
 			noReorder(c, "C22.order", "d2layouts/d2grid", "gridDiagram", "objects", "ChildrenArray")
+			runMirrorClause(c, "C22.mirror", pk, 8)
+			runCeilClause(c, "C22.ceil-division", pk)
 		},
 	})
 	register(&Prop{
@@ -399,6 +431,80 @@ func runC20(c *core.Check) {
 	if n < 2 {
 		c.Fail("C20.traced", "straight:sites", token.NoPos, fmt.Sprintf("only %d centre-to-centre routes found", n))
 	}
+	// endpoint index agreement: under `e.Src == o` the first route point belongs to o, under `e.Dst == o` the last one
+	c.Rule("C20.endpoint-index", "code guarded by e.Src == o touches route[0]; code guarded by e.Dst == o touches the last route point")
+	nend := 0
+	for _, pk := range pkgsMatching(c, relIn("d2layouts/...", "d2graph")) {
+		for _, fi := range c.P.Funcs(pk) {
+			info := fi.Pkg.TypesInfo
+			var fl *core.Flow
+			counts := map[string]int{}
+			ast.Inspect(fi.Decl.Body, func(nd ast.Node) bool {
+				ix, ok := nd.(*ast.IndexExpr)
+				if !ok || !strings.HasSuffix(exprStr(ix.X), ".Route") {
+					return true
+				}
+				edge := strings.TrimSuffix(exprStr(ix.X), ".Route")
+				if fl == nil {
+					fl = core.NewFlow(fi.Pkg, fi.Decl.Body)
+				}
+				src, dst := false, false
+				for _, g := range fl.GuardsOfNode(ix) {
+					for _, a := range g.Atoms() {
+						be, ok := ast.Unparen(a.Cond).(*ast.BinaryExpr)
+						if !ok || be.Op != token.EQL || !a.True {
+							continue
+						}
+						l, r := exprStr(be.X), exprStr(be.Y)
+						if l == edge+".Src" || r == edge+".Src" {
+							src = true
+						}
+						if l == edge+".Dst" || r == edge+".Dst" {
+							dst = true
+						}
+					}
+				}
+				if src == dst {
+					return true // unguarded, or a self-loop branch (both ends)
+				}
+				nend++
+				isFirst := false
+				if cv, ok := intConst(info, ix.Index); ok && cv == 0 {
+					isFirst = true
+				}
+				isLast := false
+				if lx, cc, ok := lenForm(fi, ix.Index, 0); ok && lx == exprStr(ix.X) && cc == -1 {
+					isLast = true
+				}
+				want, okE := "route[0]", isFirst
+				end := "Src"
+				if dst {
+					want, okE, end = "the last route point", isLast, "Dst"
+				}
+				// interior points next to the end (second, second-to-last) are used for directions; accept them too
+				if !okE {
+					if src {
+						if cv, ok := intConst(info, ix.Index); ok && cv <= 2 {
+							okE = true
+						}
+					} else if lx, cc, ok := lenForm(fi, ix.Index, 0); ok && lx == exprStr(ix.X) && cc >= -3 && cc <= -1 {
+						okE = true
+					}
+				}
+				key := fmt.Sprintf("endpoint:%s:%s[%s]|%s", fname(fi), exprStr(ix.X), exprStr(ix.Index), end)
+				counts[key]++
+				if counts[key] > 1 {
+					key = fmt.Sprintf("%s#%d", key, counts[key])
+				}
+				c.Decide(okE, "C20.endpoint-index", key, ix.Pos(), "touches "+want, fmt.Sprintf("under %s.%s == … the code touches %s instead of %s: the adjustment meant for this end is applied to the other end, which then leaves its shape", edge, end, exprStr(ix), want))
+				return true
+			})
+		}
+	}
+	if nend < 12 {
+		c.Fail("C20.endpoint-index", "endpoint:sites", token.NoPos, fmt.Sprintf("only %d end-specific route accesses found", nend))
+	}
+	runDirectionClause(c, "C20.direction", pkgsMatching(c, relIn("d2layouts/...", "d2graph")))
 	onlyTrace := func(fi *core.FuncInfo) bool {
 		rel := core.RelPkg(fi.Pkg.PkgPath)
 		if rel != "d2graph" {
